@@ -5,7 +5,7 @@
 //! real `isograph_cli` built from the working tree.
 //! Oracle: the process exits 0 or 1 (no panic exit 101, no signal); exit 0 => `iso.ts` exists in
 //! the artifact directory; exit 1 => stderr carries an error report.
-use crate::cases::{self, Case, CaseSpec, Exclusions};
+use gen_project::cases::{self, Case, CaseSpec, Exclusions};
 use gen_project::compile::{self, CliRun};
 use gen_project::{artifact_dir, Rendered};
 use serde_json::{json, Value};
